@@ -35,9 +35,14 @@ def main():
             last = [l for l in o.splitlines() if l.startswith(("VIOLATION", "OK ", "INCONCLUSIVE"))]
             meta["rerun"] = {"repo_head": head.strip(), "check": prop, "exit": rc, "wall_s": round(time.time() - t0, 1), "line": (last[-1] if last else o[-200:])[:300]}
             print("%-8s %s exit=%d %s" % (sid, prop, rc, meta["rerun"]["line"][:160]))
+            # the table (tools/mkseedtable.py) reads these
+            meta.setdefault("checks", {})[prop] = {"exit": rc, "wall_s": meta["rerun"]["wall_s"], "line": meta["rerun"]["line"]}
+            meta["caught_by"] = sorted(c for c, r in meta["checks"].items() if r.get("exit") == 1)
+            meta["target_check_catches"] = rc == 1
         finally:
             sh("git checkout -- . && git clean -fdq tests", cwd="/repo")
         json.dump(meta, open(os.path.join(d, "meta.json"), "w"), indent=1)
+    sh("git checkout -- evidence", cwd=ROOT)
     return 0
 
 if __name__ == "__main__":
